@@ -20,3 +20,26 @@ Proof.
                 (clean_top_doc sp lb v indent depth maxlen sort Hn) []) as HT.
   rewrite app_nil_r in HT. cbn [stoks] in HT. now rewrite app_nil_r in HT.
 Qed.
+
+(** ... and for EVERY value, strings included: the raw tokens of the stream
+    the engine emits glue to the tokens of the expression - a string value
+    from the literal pieces of one non-empty split of it (StrBridge). *)
+From PP Require Import AnnotProofs NestDocs IndentE2E AnnotE2E StrBridge.
+
+Theorem engine_output_tokens_all :
+  forall (printable sp wd lb : N -> bool) (fuel ff : nat) (v : pyval) (indent width rw : Z)
+         (depth : option Z) (maxlen : Z) (sort : bool) (out : list sdoc),
+    wf_val v ->
+    sdocs_model printable sp wd lb fuel ff v indent width rw depth maxlen sort = Some out ->
+    exists raw, rtoks (strip out) NNormal = raw /\
+                Glue printable raw (etoks (expr_of (mkE depth maxlen sort) v false)).
+Proof.
+  intros printable sp wd lb fuel ff v indent width rw depth maxlen sort out Hw H.
+  unfold sdocs_model in H. apply membership in H as [c' HL].
+  assert (Hn : nopop (top_doc sp lb v indent depth maxlen sort) = true)
+    by (apply (nestk_nopop indent); apply nk_top_doc).
+  destruct (lay_tokens_all printable sp wd lb width rw _ _ _ _ _ _ HL Hn _
+              (top_doc_DT sp lb v indent depth maxlen sort Hw)) as (raw & HT & HG).
+  exists raw. split; [|exact HG].
+  specialize (HT []). rewrite app_nil_r in HT. cbn [rtoks] in HT. now rewrite app_nil_r in HT.
+Qed.
